@@ -187,12 +187,29 @@ where
     let one_done = AtomicBool::new(false);
 
     let l_c_s = async {
-        match l_c.forward(c_s).await {
+        // A failing read from the local socket (the application reset the connection) ends this direction the way
+        // end-of-stream does: what was read before the failure is still sent on and the sink is flushed and closed, so
+        // the target gets everything the application wrote, then end-of-stream.
+        let mut read_failed = None;
+        let l_c = l_c.scan((), |_, r| {
+            futures::future::ready(match r {
+                Ok(item) => Some(Ok(item)),
+                Err(e) => {
+                    read_failed = Some(e);
+                    None
+                }
+            })
+        });
+        let forwarded = l_c.forward(c_s).await;
+        match forwarded {
             Ok(_) => {
                 if !one_done.swap(true, Ordering::Relaxed) {
                     time::sleep(CLOSE_GRACE).await;
                 }
-                Err::<(), _>(relay::Result::Close(End::Local, End::Client))
+                Err::<(), _>(match read_failed {
+                    Some(e) => relay::Result::Err(End::Local, End::Client, e),
+                    None => relay::Result::Close(End::Local, End::Client),
+                })
             }
             Err(e) => Err(relay::Result::Err(End::Local, End::Client, e)),
         }
